@@ -280,3 +280,17 @@ package state
 //@ lemma C06.kvsListAll-vs-set: forall key string, idx uint64 :: kvMono(idx) && setPost(key, idx) && listChanged("") ==> tableMax() > old(tableMax())
 //@ lemma C06.kvsListAll-vs-delete: forall key string, idx uint64 :: kvMono(idx) && deletePost(key, idx) && listChanged("") ==> tableMax() > old(tableMax())
 //@ lemma C06.kvsListAll-vs-deleteTree: forall p string, idx uint64 :: kvMono(idx) && deleteTreePost(p, idx) && listChanged("") ==> tableMax() > old(tableMax())
+
+// ---- C13: the decision is taken by the first matching intention of the (precedence-sorted) list
+
+//@ func Store.IntentionDecision
+//@ props C13
+//@ results resp, err
+//@ requires forall j int :: 0 <= j && j < len(opts.Intentions) ==> opts.Intentions[j] != nil
+//@ ensures[no-error] err == nil
+//@ ensures[default-when-no-match] (forall j int :: 0 <= j && j < len(opts.Intentions) ==> !connect.IntentionMatch(opts.Target, opts.Namespace, opts.Partition, opts.Peer, opts.Intentions[j], opts.MatchType)) ==> resp.Allowed == opts.DefaultAllow
+//@ ensures[first-match-decides] forall k int :: 0 <= k && k < len(opts.Intentions) && connect.IntentionMatch(opts.Target, opts.Namespace, opts.Partition, opts.Peer, opts.Intentions[k], opts.MatchType) && (forall j int :: 0 <= j && j < k ==> !connect.IntentionMatch(opts.Target, opts.Namespace, opts.Partition, opts.Peer, opts.Intentions[j], opts.MatchType)) ==>
+//@      resp.Allowed == ite(len(opts.Intentions[k].Permissions) > 0, opts.AllowPermissions, opts.Intentions[k].Action == structs.IntentionActionAllow)
+//@ ensures[default-reported] resp.DefaultAllow == opts.DefaultAllow
+//@ modifies nothing
+//@ loop 1 invariant[none-before] ixnMatch == nil && forall j int :: 0 <= j && j < range1_idx ==> !connect.IntentionMatch(opts.Target, opts.Namespace, opts.Partition, opts.Peer, opts.Intentions[j], opts.MatchType)
